@@ -63,3 +63,286 @@ Example c18_nonvacuous :
   script_gate script_ro "set" (mkEnv false false true false false) = SErrReadOnly /\
   script_gate script_na "set" (mkEnv false false true false false) = SRun LExcl true "cmdSET".
 Proof. vm_compute. repeat split. Qed.
+
+(* ======================================================================================== *)
+(* Executable model of a script run over the concurrency model (Model/Script.v), for EVERY handler
+   semantics that satisfies the two stated hypotheses, every set of per-connection programs (plain
+   commands and scripts of all six variants; a script is a call STRATEGY: the next call may depend on
+   what earlier calls returned) and every schedule of the micro-steps. Locks, arms, refusals and
+   logging flags are read from the regenerated Gen/LockTable.v, Gen/ScriptTables.v, Gen/Dispatch.v. *)
+From Coq Require Import Arith.
+From T38 Require Import Base.Bytes Base.SMap Model.Resp Model.Aof Proofs.AofProofs.
+From T38 Require Import Model.Tables Model.Replay Model.Script Model.ScriptKs Proofs.ScriptProofs Proofs.ScriptKsProofs.
+Open Scope list_scope.
+Open Scope nat_scope.
+
+(* (d) + the script part of C03: at every instant - in the middle of a script, after a script was
+   aborted by a failing tile38.call, between the calls of an EVALNA script - the dataset is what
+   start-up computes from the log *)
+Theorem c18s_state_is_replay_of_log :
+  forall (S val herr : Type) (cname : cmd -> string) (handler : string -> S -> cmd -> S * (val + herr) * bool)
+         (e : env) (s0 : S), noupd_ok handler -> pure_ok handler ->
+  forall (progs : nat -> list (req val herr)) (sched : list nat),
+  let g := srun cname handler e (sinit s0 progs) sched in
+  shared g = replay_log cname handler (aof g) s0.
+Proof. exact state_is_replay_of_log. Qed.
+Print Assumptions c18s_state_is_replay_of_log.
+
+(* the script part of C03, crash form: a kill at any instant leaves a byte prefix q of the file; start-up
+   (the transcribed loadAOF of C04) recovers exactly a dataset the live server was in - the one at the
+   instant k of the schedule at which the last wholly written record had just been appended - and
+   cuts the file there. (That instant can lie between two calls of one EVAL: the lock makes a script
+   indivisible for other connections, not for a kill; see the notes.) *)
+Theorem c18s_crash_recovers_a_live_state :
+  forall (S val herr : Type) (cname : cmd -> string) (handler : string -> S -> cmd -> S * (val + herr) * bool)
+         (e : env) (s0 : S), noupd_ok handler -> pure_ok handler ->
+  forall (progs : nat -> list (req val herr)) (sched : list nat) (q t : bytes),
+  let g := srun cname handler e (sinit s0 progs) sched in
+  Forall cmd_ok (aof g) -> q ++ t = encs (aof g) ->
+  exists k, k <= length sched /\
+    let gk := srun cname handler e (sinit s0 progs) (firstn k sched) in
+    aof gk = firstn (inside (aof g) (len q)) (aof g) /\
+    recover S (exec_top cname handler) q s0 = Some (shared gk, len (encs (aof gk))).
+Proof. exact crash_recovers_a_live_state. Qed.
+Print Assumptions c18s_crash_recovers_a_live_state.
+
+(* (d) the log is exactly the calls that succeeded and updated, once each, in the order they were
+   made (per request: in call order); a logged call ran under the exclusive lock; a call that was
+   not logged left the dataset as it was *)
+Theorem c18s_log_is_the_successful_writes :
+  forall (S val herr : Type) (cname : cmd -> string) (handler : string -> S -> cmd -> S * (val + herr) * bool)
+         (e : env) (s0 : S), noupd_ok handler -> pure_ok handler ->
+  forall (progs : nat -> list (req val herr)) (sched : list nat),
+  let g := srun cname handler e (sinit s0 progs) sched in
+  log g = recs_of (hist g) /\
+  (forall t r, filter (own_rec t r) (log g) = recs_of (filter (own t r) (hist g))) /\
+  (forall ev c seen after r upd logged, In ev (hist g) -> e_kind ev = KExec c seen after r upd logged ->
+     (logged = true -> e_held ev = LExcl /\ is_ok r = true /\ upd = true) /\ (logged = false -> after = seen)).
+Proof. exact log_is_the_successful_writes. Qed.
+Print Assumptions c18s_log_is_the_successful_writes.
+
+(* the lock a request starts under is the one Gen/LockTable.v lists for its command word *)
+Theorem c18s_start_lock_from_table :
+  forall (S val herr : Type) (cname : cmd -> string) (handler : string -> S -> cmd -> S * (val + herr) * bool)
+         (e : env) (s0 : S), noupd_ok handler -> pure_ok handler ->
+  forall (progs : nat -> list (req val herr)) (sched : list nat),
+  let g := srun cname handler e (sinit s0 progs) sched in
+  forall ev l, In ev (hist g) -> e_kind ev = KStart l ->
+  l = a_lock (arm_of lock_table (e_name ev)) /\ e_held ev = l.
+Proof. exact start_lock_from_table. Qed.
+Print Assumptions c18s_start_lock_from_table.
+
+(* (a) atomic variants, in the history: everything that happens between the first and the last step
+   of one EVAL / EVALSHA request belongs to that request, except steps of threads that hold no server
+   lock at all (the Lua code of an EVALNA script between two calls, PING ...: they neither read nor
+   write the dataset). No other command is applied, no other locked command is answered in between. *)
+Theorem c18s_eval_indivisible :
+  forall (S val herr : Type) (cname : cmd -> string) (handler : string -> S -> cmd -> S * (val + herr) * bool)
+         (e : env) (s0 : S), noupd_ok handler -> pure_ok handler ->
+  forall (progs : nat -> list (req val herr)) (sched : list nat),
+  let g := srun cname handler e (sinit s0 progs) sched in
+  forall ev l, In ev (hist g) -> e_kind ev = KStart l -> In (e_name ev) ["eval"; "evalsha"] ->
+  contig (e_tid ev) (e_rid ev) (hist g).
+Proof. exact eval_contiguous. Qed.
+Print Assumptions c18s_eval_indivisible.
+
+(* ... and the same for every request that starts under the exclusive lock (C07's multi-object
+   commands PDEL, DROP, RENAME, FLUSHDB are one section too) *)
+Theorem c18s_exclusive_request_indivisible :
+  forall (S val herr : Type) (cname : cmd -> string) (handler : string -> S -> cmd -> S * (val + herr) * bool)
+         (e : env) (s0 : S), noupd_ok handler -> pure_ok handler ->
+  forall (progs : nat -> list (req val herr)) (sched : list nat),
+  let g := srun cname handler e (sinit s0 progs) sched in
+  forall t r, marked t r (hist g) -> contig t r (hist g).
+Proof. exact exclusive_request_contiguous. Qed.
+Print Assumptions c18s_exclusive_request_indivisible.
+
+(* (a) in the log: the records of such a request are one contiguous block (in call order by the
+   theorem above); each of its own steps sees the log before the block plus its own records so far;
+   every step of another thread that holds a lock sees all of the block or none of it *)
+Theorem c18s_indivisible_in_the_log :
+  forall (S val herr : Type) (cname : cmd -> string) (handler : string -> S -> cmd -> S * (val + herr) * bool)
+         (e : env) (s0 : S), noupd_ok handler -> pure_ok handler ->
+  forall (progs : nat -> list (req val herr)) (sched : list nat),
+  let g := srun cname handler e (sinit s0 progs) sched in
+  forall t r, contig t r (hist g) ->
+  exists lpre lmid lpost,
+    log g = lpre ++ lmid ++ lpost /\
+    Forall (fun x => own_rec t r x = false) lpre /\ Forall (fun x => own_rec t r x = true) lmid /\
+    Forall (fun x => own_rec t r x = false) lpost /\
+    forall ev, In ev (hist g) ->
+      (own t r ev = true -> length lpre <= e_pos ev <= length lpre + length lmid) /\
+      (own t r ev = false -> free ev = false -> e_pos ev <= length lpre \/ length lpre + length lmid <= e_pos ev).
+Proof. exact contiguous_in_the_log. Qed.
+Print Assumptions c18s_indivisible_in_the_log.
+
+(* every state any handler observes (in a script or not) is the state after a complete prefix of
+   the log: e_pos records of it *)
+Theorem c18s_observations_are_log_prefixes :
+  forall (S val herr : Type) (cname : cmd -> string) (handler : string -> S -> cmd -> S * (val + herr) * bool)
+         (e : env) (s0 : S), noupd_ok handler -> pure_ok handler ->
+  forall (progs : nat -> list (req val herr)) (sched : list nat),
+  let g := srun cname handler e (sinit s0 progs) sched in
+  forall ev c seen after r upd logged, In ev (hist g) -> e_kind ev = KExec c seen after r upd logged ->
+  e_pos ev <= length (log g) /\ seen = replay_log cname handler (map r_cmd (firstn (e_pos ev) (log g))) s0.
+Proof. exact observations_are_log_prefixes. Qed.
+Print Assumptions c18s_observations_are_log_prefixes.
+
+(* (b) EVALRO / EVALROSHA (every command that starts a script under a table without a logging arm):
+   no step of such a request changes the dataset or the log ... *)
+Theorem c18s_evalro_step_changes_nothing :
+  forall (S val herr : Type) (cname : cmd -> string) (handler : string -> S -> cmd -> S * (val + herr) * bool)
+         (e : env) (s0 : S), noupd_ok handler -> pure_ok handler ->
+  forall (progs : nat -> list (req val herr)) (sched : list nat),
+  let g := srun cname handler e (sinit s0 progs) sched in
+  forall u, t_pc (th g u) <> PIdle -> ro_name (cname (t_cmd (th g u))) = true ->
+  shared (sstep cname handler e g u) = shared g /\ log (sstep cname handler e g u) = log g.
+Proof. exact ro_step_changes_nothing. Qed.
+Print Assumptions c18s_evalro_step_changes_nothing.
+
+(* ... and nothing in the history of such a request is a record or a change *)
+Theorem c18s_evalro_logs_nothing :
+  forall (S val herr : Type) (cname : cmd -> string) (handler : string -> S -> cmd -> S * (val + herr) * bool)
+         (e : env) (s0 : S), noupd_ok handler -> pure_ok handler ->
+  forall (progs : nat -> list (req val herr)) (sched : list nat),
+  let g := srun cname handler e (sinit s0 progs) sched in
+  forall ev, In ev (hist g) -> ro_name (e_name ev) = true ->
+  ev_recs ev = [] /\
+  forall c seen after r upd logged, e_kind ev = KExec c seen after r upd logged -> logged = false /\ after = seen.
+Proof. exact ro_request_logs_nothing. Qed.
+Print Assumptions c18s_evalro_logs_nothing.
+
+Theorem c18s_evalro_names : ro_name "evalro" = true /\ ro_name "evalrosha" = true /\ ro_name "eval" = false /\ ro_name "evalna" = false.
+Proof. exact evalro_names. Qed.
+Print Assumptions c18s_evalro_names.
+
+(* (a)/(c) as steps: while a thread holds the exclusive lock, a step of any other thread leaves the
+   dataset, the log and the lock as they are and happens holding no lock ... *)
+Theorem c18s_exclusive_holder_excludes :
+  forall (S val herr : Type) (cname : cmd -> string) (handler : string -> S -> cmd -> S * (val + herr) * bool)
+         (e : env) (s0 : S), noupd_ok handler -> pure_ok handler ->
+  forall (progs : nat -> list (req val herr)) (sched : list nat),
+  let g := srun cname handler e (sinit s0 progs) sched in
+  forall t u, wr g = Some t -> u <> t ->
+  let g' := sstep cname handler e g u in
+  shared g' = shared g /\ log g' = log g /\ wr g' = wr g /\ rd g' = rd g /\
+  (hist g' = hist g \/
+   exists ev, hist g' = hist g ++ [ev] /\ e_tid ev = u /\ free ev = true /\ ev_recs ev = []).
+Proof. exact exclusive_holder_excludes. Qed.
+Print Assumptions c18s_exclusive_holder_excludes.
+
+(* ... a thread holds it from the lock switch to the end of the request when the request's arm says
+   so (EVAL, EVALSHA: the whole script) ... *)
+Theorem c18s_eval_holds_exclusive_throughout :
+  forall (S val herr : Type) (cname : cmd -> string) (handler : string -> S -> cmd -> S * (val + herr) * bool)
+         (e : env) (s0 : S), noupd_ok handler -> pure_ok handler ->
+  forall (progs : nat -> list (req val herr)) (sched : list nat),
+  let g := srun cname handler e (sinit s0 progs) sched in
+  forall t, t_pc (th g t) <> PIdle -> outer_lock cname (t_cmd (th g t)) = LExcl -> wr g = Some t.
+Proof. exact inside_exclusive_request. Qed.
+Print Assumptions c18s_eval_holds_exclusive_throughout.
+
+(* (c) ... and an EVALNA script holds it during each write call and only then: other commands
+   interleave between its calls, never inside one *)
+Theorem c18s_evalna_call_exclusive :
+  forall (S val herr : Type) (cname : cmd -> string) (handler : string -> S -> cmd -> S * (val + herr) * bool)
+         (e : env) (s0 : S), noupd_ok handler -> pure_ok handler ->
+  forall (progs : nat -> list (req val herr)) (sched : list nat),
+  let g := srun cname handler e (sinit s0 progs) sched in
+  forall t, innerh (th g t) = LExcl -> wr g = Some t.
+Proof. exact inside_exclusive_call. Qed.
+Print Assumptions c18s_evalna_call_exclusive.
+
+Theorem c18s_variant_locks_from_tables :
+  forallb (fun v => starts_script v && lockk_eqb (a_lock (arm_of lock_table v)) LExcl) ["eval"; "evalsha"] = true /\
+  forallb (fun v => starts_script v && lockk_eqb (a_lock (arm_of lock_table v)) LNone &&
+                    match assoc script_variant v with
+                    | Some t => forallb (fun a => implb (a_write a) (lockk_eqb (a_lock a) LExcl)) (t_default t :: t_arms t)
+                    | None => false end) ["evalna"; "evalnasha"] = true.
+Proof. exact (conj eval_takes_excl evalna_takes_none). Qed.
+Print Assumptions c18s_variant_locks_from_tables.
+
+(* the hypotheses are satisfiable: the instance the driver executes (Model/ScriptKs.v) *)
+Theorem c18s_hypotheses_hold_for_the_driver_instance : noupd_ok khandler /\ pure_ok khandler.
+Proof. exact (conj ks_noupd ks_pure). Qed.
+Print Assumptions c18s_hypotheses_hold_for_the_driver_instance.
+
+(* ---- Examples: concrete programs and schedules on the driver instance ---- *)
+Definition bsl (l : list string) : cmd := map bytes_of_string l.
+Definition kreq (words : list string) (p : prog kval kerr) : req kval kerr := mkReq (bsl words) p.
+Definition set_a1 := bsl ["set"; "k"; "a"; "string"; "1"].
+Definition set_b1 := bsl ["set"; "k"; "b"; "string"; "1"].
+Definition SET_a2 := bsl ["SET"; "k"; "a"; "STRING"; "2"].
+Definition two_sets : prog kval kerr := Call false set_a1 (fun _ => Call false set_b1 (fun _ => Ret VOk)).
+(* connection 0 runs the script under the given command word, connection 1 a plain SET on the same id *)
+Definition progs2 (word : string) (t : nat) : list (req kval kerr) :=
+  match t with
+  | 0 => [kreq [word; "<lua>"; "0"] two_sets]
+  | 1 => [mkReq SET_a2 (Ret VNil)]
+  | _ => []
+  end.
+
+(* (c) EVALNA: the other connection's SET lands BETWEEN the two calls of the script ... *)
+Example c18s_evalna_interleaves_between_calls :
+  let g := krun (kinit [] (progs2 "EVALNA")) [0;0;0;0;0; 1;1;1; 0;0;0; 0;0] in
+  aof g = [set_a1; SET_a2; set_b1] /\
+  map (fun x => (r_tid x, r_rid x)) (log g) = [(0, 0); (1, 0); (0, 0)] /\
+  wr g = None /\ shared g = kreplay (aof g) [].
+Proof. vm_compute. repeat split. Qed.
+
+(* ... but with the very same programs under EVAL the other connection is stuck at its lock switch
+   for as long as the script runs (its three scheduled steps do nothing), and lands after it *)
+Example c18s_eval_cannot_be_interleaved :
+  let g6 := krun (kinit [] (progs2 "EVAL")) [0;0;0; 1;1;1] in
+  let g := krun g6 [0;0;0; 1;1;1] in
+  aof g6 = [set_a1] /\ wr g6 = Some 0 /\ filter (fun ev => Nat.eqb (e_tid ev) 1) (hist g6) = [] /\
+  aof g = [set_a1; set_b1; SET_a2] /\ shared g = kreplay (aof g) [].
+Proof. vm_compute. repeat split. Qed.
+
+(* a call that fails in the middle: with tile38.call the script is aborted, the request is answered
+   with the error, what the earlier call wrote stays applied AND logged (no roll-back) ... *)
+Definition rename_missing := bsl ["rename"; "nokey"; "x"].
+Definition fail_midway (prot : bool) : prog kval kerr :=
+  Call false set_a1 (fun _ => Call prot rename_missing (fun _ => Call false set_b1 (fun _ => Ret VOk))).
+Definition answers (g : gstate kstate kval kerr) : list (reply kval kerr) :=
+  flat_map (fun ev => match e_kind ev with KAns r => [r] | _ => [] end) (hist g).
+
+Example c18s_call_error_aborts_but_keeps_earlier_writes :
+  let g := krun (kinit [] (fun t => match t with 0 => [kreq ["EVAL"; "<lua>"; "0"] (fail_midway false)] | _ => [] end))
+                [0;0;0;0;0;0;0;0] in
+  aof g = [set_a1] /\ answers g = [inr (CHandler EKeyNotFound)] /\
+  shared g = kreplay (aof g) [] /\ get (bytes_of_string "k") (shared g) = Some [(bytes_of_string "a", bytes_of_string "1")].
+Proof. vm_compute. repeat split. Qed.
+
+(* ... with tile38.pcall the error is a value and the script goes on *)
+Example c18s_pcall_error_is_a_value :
+  let g := krun (kinit [] (fun t => match t with 0 => [kreq ["EVALSHA"; "<sha>"; "0"] (fail_midway true)] | _ => [] end))
+                [0;0;0;0;0;0;0;0] in
+  aof g = [set_a1; set_b1] /\ answers g = [inl VOk] /\ shared g = kreplay (aof g) [].
+Proof. vm_compute. repeat split. Qed.
+
+(* (b) EVALRO refuses the write with `read only` (pcall: the script continues and reads), logs nothing *)
+Definition get_a := bsl ["get"; "k"; "a"].
+Example c18s_evalro_refuses_writes :
+  let g := krun (kinit [(bytes_of_string "k", [(bytes_of_string "a", bytes_of_string "0")])]
+                  (fun t => match t with
+                            | 0 => [kreq ["EVALRO"; "<lua>"; "0"]
+                                      (Call true set_a1 (fun r1 => Call false get_a (fun r2 =>
+                                         Ret (VArr [match r1 with inr CReadOnly => VInt 1 | _ => VInt 0 end;
+                                                    match r2 with inl v => v | _ => VNil end]))))]
+                            | _ => [] end)) [0;0;0;0;0;0] in
+  aof g = [] /\ answers g = [inl (VArr [VInt 1; VBulk (bytes_of_string "0")])] /\
+  shared g = [(bytes_of_string "k", [(bytes_of_string "a", bytes_of_string "0")])].
+Proof. vm_compute. repeat split. Qed.
+
+(* what the indivisibility theorem does NOT exclude, and rightly so: a step that holds no lock - here
+   the reply of an EVALNA script whose Lua code returns - can fall between two calls of an EVAL *)
+Example c18s_lock_free_steps_may_fall_inside_an_eval :
+  let g := krun (kinit [] (fun t => match t with
+                                    | 0 => [kreq ["EVAL"; "<lua>"; "0"] two_sets]
+                                    | 1 => [kreq ["EVALNA"; "<lua>"; "0"] (Ret VOk)]
+                                    | _ => [] end)) [1;1; 0;0;0; 1; 0;0;0] in
+  map (fun ev => (e_tid ev, free ev)) (hist g) =
+    [(1, true); (1, true); (0, false); (0, false); (0, false); (1, true); (0, false); (0, false); (0, false)] /\
+  aof g = [set_a1; set_b1].
+Proof. vm_compute. repeat split. Qed.
